@@ -36,6 +36,12 @@ type GCase struct {
 	Parts int     `json:"parts,omitempty"` // >=2: items are spread over that many named sets which are only united by a set listing nothing but sets
 	Tag   string  `json:"tag"`
 	Alone bool    `json:"alone,omitempty"` // run in its own invocation under the time bound
+	// Twin (with Parts >= 2): the graph lives in a package b/tw, a package
+	// a/tw with the same package name declares unconnected types of the same
+	// names, and only the root package unites the parts and the decoys in one
+	// set - so a cycle crossing parts exists only among types whose short
+	// printed form ("tw.T3") is shared with an acyclic namesake.
+	Twin bool `json:"twin,omitempty"`
 }
 
 func (g *GCase) key() string { b, _ := json.Marshal(g); return eng.HashString(string(b)) }
@@ -156,9 +162,14 @@ func (g *GCase) ty(i int) string {
 }
 
 // render produces the program's files.
-func (g *GCase) render(pkg string) map[string]string {
+func (g *GCase) render(pkg string, prog string) map[string]string {
 	var d strings.Builder
-	fmt.Fprintf(&d, "package %s\n\nimport \"github.com/google/wire\"\n\n", pkg)
+	twin := g.Twin && g.Parts >= 2
+	if twin {
+		fmt.Fprintf(&d, "package tw\n\nimport \"github.com/google/wire\"\n\n")
+	} else {
+		fmt.Fprintf(&d, "package %s\n\nimport \"github.com/google/wire\"\n\n", pkg)
+	}
 	n := len(g.Nodes)
 	fieldKids := make([][]int, n)
 	bindKids := make([][]int, n)
@@ -251,6 +262,31 @@ func (g *GCase) render(pkg string) map[string]string {
 		if g.Root < 0 {
 			fmt.Fprintf(&d, "type R struct{}\n\nfunc ProvideR() *R { return nil }\n\nvar PartR = wire.NewSet(ProvideR)\n\n")
 			top = append(top, "PartR")
+		}
+		if twin {
+			var a strings.Builder
+			fmt.Fprintf(&a, "package tw\n\nimport \"github.com/google/wire\"\n\n")
+			var decoys []string
+			for i, nd := range g.Nodes {
+				if nd.Kind == "bind" {
+					continue
+				}
+				fmt.Fprintf(&a, "type T%d struct{}\n\nfunc ProvideT%d() *T%d { return nil }\n\n", i, i, i)
+				decoys = append(decoys, fmt.Sprintf("ProvideT%d", i))
+			}
+			fmt.Fprintf(&a, "var Set = wire.NewSet(\n\t%s,\n)\n", strings.Join(decoys, ",\n\t"))
+			qtop := []string{"atw.Set"}
+			for _, x := range top {
+				qtop = append(qtop, "btw."+x)
+			}
+			qres := strings.Replace(res, "T", "btw.T", 1)
+			if res == "*R" {
+				qres = "*btw.R"
+			}
+			imp := fmt.Sprintf("import (\n\t\"github.com/google/wire\"\n\n\tatw \"%s/a/tw\"\n\tbtw \"%s/b/tw\"\n)\n\n", eng.ProgPath(prog), eng.ProgPath(prog))
+			root := fmt.Sprintf("package %s\n\n%svar Set = wire.NewSet(\n\t%s,\n)\n", pkg, imp, strings.Join(qtop, ",\n\t"))
+			inj := fmt.Sprintf("//go:build wireinject\n\npackage %s\n\nimport (\n\t\"github.com/google/wire\"\n\n\tbtw \"%s/b/tw\"\n)\n\nfunc Inject() %s {\n\twire.Build(Set)\n\treturn nil\n}\n", pkg, eng.ProgPath(prog), qres)
+			return map[string]string{"b/tw/defs.go": d.String(), "a/tw/defs.go": a.String(), "defs.go": root, "inject.go": inj}
 		}
 		fmt.Fprintf(&d, "var Set = wire.NewSet(\n\t%s,\n)\n", strings.Join(top, ",\n\t"))
 		inj := fmt.Sprintf("//go:build wireinject\n\npackage %s\n\nimport \"github.com/google/wire\"\n\nfunc Inject() %s {\n\twire.Build(Set)\n\treturn nil\n}\n", pkg, res)
@@ -347,7 +383,7 @@ func c07Eval(c *eng.Ctx, bound time.Duration) func(cs []*GCase) []c07Obs {
 			for i := ch.lo; i < ch.hi; i++ {
 				name := fmt.Sprintf("g%05d", i)
 				names[i] = name
-				w.AddProg(name, cs[i].render("g"))
+				w.AddProg(name, cs[i].render("g", name))
 				if cs[i].Alone {
 					alone = append(alone, name)
 				} else {
@@ -384,6 +420,9 @@ func c07Eval(c *eng.Ctx, bound time.Duration) func(cs []*GCase) []c07Obs {
 			}
 			cyc, avoid0 := g.cyclic()
 			c.Class(fmt.Sprintf("%s/cyclic=%v", g.Tag, cyc))
+			if g.Twin && g.Parts >= 2 {
+				c.Class(fmt.Sprintf("twin-packages/cyclic=%v", cyc))
+			}
 			if avoid0 || g.Alone {
 				c.Nontrivial(g.key())
 			}
@@ -437,6 +476,7 @@ func genGraph() *rapid.Generator[*GCase] {
 			g.Root = rapid.SampledFrom([]int{-1, -1, 0}).Draw(t, "root")
 			g.Sub = rapid.Bool().Draw(t, "sub")
 			g.Parts = rapid.SampledFrom([]int{0, 0, 2, 3}).Draw(t, "parts")
+			g.Twin = g.Parts >= 2 && rapid.Bool().Draw(t, "twin")
 			g.normalize()
 			return g
 		}
@@ -480,6 +520,7 @@ func genGraph() *rapid.Generator[*GCase] {
 		g.Root = rapid.SampledFrom([]int{-1, 0, 0}).Draw(t, "root")
 		g.Sub = rapid.Bool().Draw(t, "sub")
 		g.Parts = rapid.SampledFrom([]int{0, 0, 0, 2, 3, 4}).Draw(t, "parts")
+		g.Twin = g.Parts >= 2 && rapid.Bool().Draw(t, "twin")
 		if rapid.IntRange(0, 99).Draw(t, "withmissing") < 30 {
 			// one or two leaves lose their provider
 			var leaves []int
@@ -518,6 +559,7 @@ func smallGraph(n, code int, seed uint64) *GCase {
 	g.Root = []int{-1, 0}[(ex>>8)&1]
 	g.Sub = (ex>>9)&1 == 1
 	g.Parts = []int{0, 0, 2, 3}[(ex>>10)&3]
+	g.Twin = g.Parts >= 2 && (ex>>12)&1 == 1
 	if (ex>>12)&3 == 0 {
 		// the last leaf loses its provider
 		for i := n - 1; i >= 0; i-- {
